@@ -26,7 +26,7 @@ Definition tk_exts (o : tk_opts) (ku : option N) (bc : option (Z * Z)) (eku : li
   opt (tk_aia o) (mk_ext true 0 XUnknown).
 
 Definition toolkit_cert (now : Z) (c : cert) (ku : option N) (bc : option (Z * Z)) (eku : list purpose) : Prop :=
-  c_parse_ok c = true /\ c_version c = 2 /\ c_serial_len c <> 0%N /\ c_alg_match c = true /\
+  c_parse_ok c = true /\ c_version c = 2 /\ c_serial_len c <> 0%N /\ (c_inner_alg c = AlgSM2 /\ c_outer_alg c = AlgSM2) /\
   c_issuer c <> 0%N /\ c_subject c <> 0%N /\
   c_not_before c < c_not_after c /\ c_not_after c - c_not_before c <= X509_VALIDITY_MAX_SECONDS /\
   c_not_before c <= now <= c_not_after c /\
@@ -160,8 +160,8 @@ Qed.
 
 Lemma toolkit_cert_details : forall now c ku bc eku, toolkit_cert now c ku bc eku -> get_details_ok c = true.
 Proof.
-  intros now c ku bc eku (Hp & _ & _ & _ & _ & _ & Hlt & _). unfold get_details_ok.
-  rewrite Hp. cbn. apply Z.ltb_lt. exact Hlt.
+  intros now c ku bc eku (Hp & _ & _ & (Hai & Hao) & _ & _ & Hlt & _). unfold get_details_ok.
+  rewrite Hp, Hai, Hao. cbn. rewrite !andb_true_r. apply Z.ltb_lt. exact Hlt.
 Qed.
 
 Lemma cert_check_tk : forall f now c t ku bc eku,
@@ -180,7 +180,7 @@ Proof.
   assert (validity_check (c_not_before c) (c_not_after c) now = true) as Hvc.
   { unfold validity_check. rewrite !andb_true_iff, !Z.leb_le. lia. }
   rewrite Hvc. cbn. unfold name_check. apply N.eqb_neq in Hi. apply N.eqb_neq in Hsu. rewrite Hi, Hsu. cbn.
-  rewrite He, (exts_check_tk f t o ku bc eku Hku Hbc Heku Hca), Ha. reflexivity.
+  rewrite He, (exts_check_tk f t o ku bc eku Hku Hbc Heku Hca). unfold c_alg_match. destruct Ha as [Ha1 Ha2]. rewrite Ha1, Ha2. reflexivity.
 Qed.
 
 Lemma testbit_nonzero : forall b i, N.testbit b i = true -> (b =? 0)%N = false.
@@ -234,7 +234,7 @@ Qed.
 Lemma verify_by_ca_of_issued : forall c ca, get_details_ok c = true -> get_details_ok ca = true ->
   issued_by c ca -> verify_by_ca c ca = true.
 Proof.
-  intros c ca H1 H2 [Hi Hs]. unfold verify_by_ca. rewrite H1, H2, Hi, N.eqb_refl, Hs. reflexivity.
+  intros c ca H1 H2 (Hi & Ha & Hs). unfold verify_by_ca. rewrite H1, H2, Hi, N.eqb_refl, Ha, Hs. reflexivity.
 Qed.
 
 Lemma toolkit_ca_details : forall now c pl, toolkit_ca now c pl -> get_details_ok c = true.
@@ -292,7 +292,7 @@ Proof.
   intros f now depth kenc store top root p Hst (pl & Hpl & Hca & _) Hp Htop Hi Hk.
   unfold verify_anchor. rewrite Htop. cbn [negb].
   pose proof (toolkit_ca_details _ _ _ Hca) as Hrd.
-  destruct Hi as [Hi1 Hi2]. rewrite Hi1, (get_cert_by_subject_finds _ _ Hst Hrd).
+  pose proof Hi as Hi0. destruct Hi as [Hi1 Hi2]. rewrite Hi1, (get_cert_by_subject_finds _ _ Hst Hrd).
   rewrite (cert_check_toolkit_ca f now root pl Hca).
   assert (pathlen_fail pl p depth = false) as Hpf.
   { unfold pathlen_fail. rewrite orb_false_iff, andb_false_iff, Z.leb_gt, !Z.ltb_ge. lia. }
@@ -300,7 +300,7 @@ Proof.
   assert ((p =? 0) && match kenc with Some k => negb (verify_by_ca k root) | None => false end = false) as Hk'.
   { destruct (p =? 0) eqn:E; [|reflexivity]. apply Z.eqb_eq in E. destruct kenc as [k|]; [|reflexivity].
     cbn. rewrite (Hk E k eq_refl). reflexivity. }
-  rewrite Hk'. apply verify_by_ca_of_issued; [exact Htop|exact Hrd|split; assumption].
+  rewrite Hk'. apply verify_by_ca_of_issued; [exact Htop|exact Hrd|exact Hi0].
 Qed.
 
 (* ------------------------------------------------------------------ completeness *)
@@ -394,19 +394,19 @@ Qed.
 
 Definition ex_sig (k : N) : key -> bool := fun k' => (k' =? k)%N.
 Definition ex_opts := mk_tk_opts true true false false true false true.
-Definition ex_root := mk_cert true 2 12%N true 1%N 1%N 1000 2000 1%N (ex_sig 1%N) (tk_exts ex_opts (Some 96%N) (Some (1, 6)) []).
-Definition ex_ca := mk_cert true 2 12%N true 1%N 2%N 1000 2000 2%N (ex_sig 1%N) (tk_exts ex_opts (Some 96%N) (Some (1, 0)) []).
-Definition ex_leaf := mk_cert true 2 12%N true 2%N 3%N 1000 2000 3%N (ex_sig 2%N) (tk_exts ex_opts (Some 1%N) None [KP_server]).
-Definition ex_kenc := mk_cert true 2 12%N true 2%N 3%N 1000 2000 4%N (ex_sig 2%N) (tk_exts ex_opts (Some 4%N) None [KP_server]).
+Definition ex_root := mk_cert true 2 12%N AlgSM2 AlgSM2 1%N 1%N 1000 2000 1%N (ex_sig 1%N) (tk_exts ex_opts (Some 96%N) (Some (1, 6)) []).
+Definition ex_ca := mk_cert true 2 12%N AlgSM2 AlgSM2 1%N 2%N 1000 2000 2%N (ex_sig 1%N) (tk_exts ex_opts (Some 96%N) (Some (1, 0)) []).
+Definition ex_leaf := mk_cert true 2 12%N AlgSM2 AlgSM2 2%N 3%N 1000 2000 3%N (ex_sig 2%N) (tk_exts ex_opts (Some 1%N) None [KP_server]).
+Definition ex_kenc := mk_cert true 2 12%N AlgSM2 AlgSM2 2%N 3%N 1000 2000 4%N (ex_sig 2%N) (tk_exts ex_opts (Some 4%N) None [KP_server]).
 
 Lemma ex_tk_cert : forall c ku bc eku, c_exts c = tk_exts ex_opts ku bc eku ->
-  c_parse_ok c = true -> c_version c = 2 -> c_serial_len c = 12%N -> c_alg_match c = true ->
+  c_parse_ok c = true -> c_version c = 2 -> c_serial_len c = 12%N -> (c_inner_alg c = AlgSM2 /\ c_outer_alg c = AlgSM2) ->
   (c_issuer c = 1 \/ c_issuer c = 2)%N -> (c_subject c = 1 \/ c_subject c = 2 \/ c_subject c = 3)%N ->
   c_not_before c = 1000 -> c_not_after c = 2000 -> toolkit_cert 1500 c ku bc eku.
 Proof.
   intros c ku bc eku He Hp Hv Hs Ha Hi Hsu Hnb Hna. unfold toolkit_cert, X509_VALIDITY_MAX_SECONDS.
-  rewrite Hp, Hv, Hs, Ha, Hnb, Hna.
-  split; [reflexivity|]. split; [reflexivity|]. split; [discriminate|]. split; [reflexivity|].
+  rewrite Hp, Hv, Hs, Hnb, Hna.
+  split; [reflexivity|]. split; [reflexivity|]. split; [discriminate|]. split; [exact Ha|].
   split; [destruct Hi as [H|H]; rewrite H; discriminate|].
   split; [destruct Hsu as [H|[H|H]]; rewrite H; discriminate|].
   split; [lia|]. split; [lia|]. split; [lia|].
@@ -424,7 +424,7 @@ Proof.
   - intros k i Hk. destruct k as [|[|k]]; cbn in Hk; try discriminate. inversion Hk; subst i.
     exists (Some 96%N). split; [intros b Hb; inversion Hb; subst; reflexivity|].
     apply ex_tk_cert; try reflexivity; auto.
-  - exists 6. split; [right; cbn; lia|]. split; [|split; reflexivity].
+  - exists 6. split; [right; cbn; lia|]. split; [|repeat split; reflexivity].
     exists (Some 96%N). split; [intros b Hb; inversion Hb; subst; reflexivity|].
     apply ex_tk_cert; try reflexivity; auto.
   - cbn. repeat split; reflexivity.
@@ -445,9 +445,9 @@ Proof.
   - intros k i Hk. destruct k as [|[|k]]; cbn in Hk; try discriminate. inversion Hk; subst i.
     exists (Some 96%N). split; [intros b Hb; inversion Hb; subst; reflexivity|].
     apply ex_tk_cert; try reflexivity; auto.
-  - exists 6. split; [right; cbn; lia|]. split; [|split; reflexivity].
+  - exists 6. split; [right; cbn; lia|]. split; [|repeat split; reflexivity].
     exists (Some 96%N). split; [intros b Hb; inversion Hb; subst; reflexivity|].
     apply ex_tk_cert; try reflexivity; auto.
   - cbn. repeat split; reflexivity.
-  - cbn. split; reflexivity.
+  - cbn. repeat split; reflexivity.
 Qed.
